@@ -126,8 +126,9 @@ func (c *BlockCache) Add(block *types.Block) {
 				c.cache[i].Blocks[block.Hash()] = block
 				break
 			} else if c.cache[i].Height > height { // not exist
-				tmp := append(c.cache[:i+1], bsh)
-				c.cache = append(tmp, c.cache[i+1:]...)
+				c.cache = append(c.cache, nil)
+				copy(c.cache[i+1:], c.cache[i:])
+				c.cache[i] = bsh
 				break
 			}
 		}
